@@ -231,9 +231,14 @@ func (c *Ctx) own11() {
 			if refs == nil {
 				continue
 			}
+			visited := map[ssa.Value]bool{}
 			var walk func(v ssa.Value, d int)
 			walk = func(v ssa.Value, d int) {
-				if d > 6 || v.Referrers() == nil {
+				if d > 60 || v.Referrers() == nil || visited[v] {
+					return
+				}
+				visited[v] = true
+				if false {
 					return
 				}
 				for _, r := range *v.Referrers() {
@@ -245,6 +250,13 @@ func (c *Ctx) own11() {
 							walk(x, d+1)
 						}
 					case *ssa.UnOp:
+						walk(x, d+1)
+					case *ssa.Call:
+						// append(s, …) may return s's array
+						if bl, isB := x.Call.Value.(*ssa.Builtin); isB && bl.Name() == "append" && len(x.Call.Args) > 0 && x.Call.Args[0] == v {
+							walk(x, d+1)
+						}
+					case *ssa.Phi:
 						walk(x, d+1)
 					case *ssa.Store:
 						if x.Val == v {
@@ -269,6 +281,10 @@ func (c *Ctx) own11() {
 											walk(ld, d+1)
 										}
 									}
+								} else {
+									// an element of a local aggregate (net.Buffers{packet, message}):
+									// whoever gets the aggregate gets the array
+									walk(al, d+1)
 								}
 							} else if fromGet(base) != g.call {
 								esc.failAt(c.P.Pos(x.Pos()), "the pooled array is stored in %s: it is used after it went back to the pool", Expr(x.Addr))
